@@ -217,23 +217,32 @@ def setPackage (fp : Str) (np : Str) : Schema → Schema := plantFile fp (setPkg
 
 /-- set language option number `k` (0 csharp_namespace, 1 go_package, 2 java_multiple_files,
     3 java_package, 4 php_namespace, 5 ruby_package, 6 swift_prefix) -/
-def setOpt (k : Nat) (v : Str) (g : File) : File := { g with langOpts := g.langOpts.set k v }
-def setLangOpt (fp : Str) (k : Nat) (v : Str) : Schema → Schema := plantFile fp (setOpt k v)
+def setOpt (k : Nat) (v : Option Str) (g : File) : File := { g with langOpts := g.langOpts.set k v }
+/-- `v` is the RAW option statement: `none` removes it, `some x` writes `option <name> = x;`
+    (`some []` = explicitly the empty string, `some "false"` = explicit `java_multiple_files = false`) -/
+def setLangOpt (fp : Str) (k : Nat) (v : Option Str) : Schema → Schema := plantFile fp (setOpt k v)
 
 theorem keepsDecls_setPkg (np : Str) : KeepsDecls (setPkg np) := ⟨fun _ => rfl, fun _ => rfl, fun _ => rfl, fun _ => rfl⟩
-theorem keepsDecls_setOpt (k : Nat) (v : Str) : KeepsDecls (setOpt k v) :=
+theorem keepsDecls_setOpt (k : Nat) (v : Option Str) : KeepsDecls (setOpt k v) :=
   ⟨fun _ => rfl, fun _ => rfl, fun _ => rfl, fun _ => rfl⟩
 
-theorem optVal_setOpt_ne (k i : Nat) (v : Str) (g : File) (h : i ≠ k) : optVal (setOpt k v g) i = optVal g i := by
-  unfold optVal setOpt
+theorem optRaw_setOpt_ne (k i : Nat) (v : Option Str) (g : File) (h : i ≠ k) : optRaw (setOpt k v g) i = optRaw g i := by
+  unfold optRaw setOpt
   simp only [List.getD_eq_getElem?_getD]
   rw [List.getElem?_set_ne (Ne.symm h)]
 
-theorem optVal_setOpt_eq (k : Nat) (v : Str) (g : File) (h : k < g.langOpts.length) : optVal (setOpt k v g) k = v := by
-  unfold optVal setOpt
+theorem optRaw_setOpt_eq (k : Nat) (v : Option Str) (g : File) (h : k < g.langOpts.length) : optRaw (setOpt k v g) k = v := by
+  unfold optRaw setOpt
   simp only [List.getD_eq_getElem?_getD]
   rw [List.getElem?_set_self h]
   rfl
+
+theorem optVal_setOpt_ne (k i : Nat) (v : Option Str) (g : File) (h : i ≠ k) : optVal (setOpt k v g) i = optVal g i := by
+  unfold optVal; rw [optRaw_setOpt_ne k i v g h]
+
+theorem optVal_setOpt_eq (k : Nat) (v : Option Str) (g : File) (h : k < g.langOpts.length) :
+    optVal (setOpt k v g) k = v.getD [] := by
+  unfold optVal; rw [optRaw_setOpt_eq k v g h]
 
 /-- RPC_REQUEST_RESPONSE_UNIQUE cannot see a header rewriting that keeps path and declarations -/
 theorem rpcUnique_frame_header (o : Options) (w : Schema) (fp : Str) (h : File → File)
